@@ -6,8 +6,8 @@ runs our checks against it:
   1. in the scratch worktree: unmodified -> tests 30/30, demo PASS; with the
      patch -> builds, tests 30/30, demo FAIL; reverted afterwards
   2. copies patch.diff, demo.c, build.sh, notes.md to /verif/seeded/<seed-id>/
-  3. applies the patch to /repo (git apply), runs the given checks (default:
-     the property's own quick check), undoes it (git checkout -- .)
+  3. applies the patch to a scratch copy of /repo and runs the given checks
+     (default: the property's own quick check) with VERIF_REPO pointing at it
   4. writes /verif/seeded/<seed-id>/meta.json
 Never commits anything in /repo.
 """
@@ -57,25 +57,27 @@ def main():
     print("seed %s: unmodified %d/30 demo rc=%d | patched %d/30 demo rc=%d -> %s"
           % (sid, ok0, rc0, ok1, rc1, "VALID" if good else "INVALID"))
     if good:
-        rc, out = run("git -C /repo status --porcelain --untracked-files=no")
-        if out.strip():
-            print("refusing: /repo has local modifications"); sys.exit(2)
-        rc, out = run("git -C /repo apply %s/patch.diff" % dst)
+        # the checks run against a scratch copy of /repo with the patch applied (VERIF_REPO), so that
+        # /repo itself is never modified and other runs are not disturbed
+        import tempfile
+        scratch = tempfile.mkdtemp(prefix="seedrepo-")
+        run("rsync -a --exclude .git --exclude '*.o' --exclude '*.a' /repo/ %s/" % scratch)
+        rc, out = run("cd %s && patch -p1 --no-backup-if-mismatch < %s/patch.diff" % (scratch, dst))
         if rc != 0:
-            print("patch does not apply to /repo:", out)
+            print("patch does not apply to a copy of /repo:", out[-300:])
             meta["checks"]["apply_to_repo"] = out[-300:]
         else:
             try:
                 for c in checks:
                     t0 = time.time()
-                    rc, out = run("cd %s && ./vcheck %s quick" % (VERIF, c))
+                    rc, out = run("cd %s && VERIF_REPO=%s ./vcheck %s quick" % (VERIF, scratch, c))
                     viol = re.findall(r"VIOLATION property=\S+ replay=\S+\n\s+(.{0,160})", out)
                     meta["checks"][c] = {"exit": rc, "violations": len(viol), "first": viol[0] if viol else "",
                                          "wall_s": round(time.time() - t0, 1)}
                     print("  check %s: exit %d, %d violation line(s) %s" % (c, rc, len(viol), ("| " + viol[0][:140]) if viol else ""))
             finally:
-                run("git -C /repo checkout -- .")
                 shutil.rmtree(os.path.join(VERIF, "replays"), ignore_errors=True)
+        shutil.rmtree(scratch, ignore_errors=True)
     notes = ""
     if os.path.exists(os.path.join(dst, "notes.md")):
         notes = open(os.path.join(dst, "notes.md")).read()
